@@ -1459,7 +1459,14 @@ def _check_polyroots(c, res):
         shown = [mp.nstr(z, 12) for z in out]
         # ---- residuals (exact)
         worst = 0.0
+        # polyroots' documented cleanup chops components below the working tolerance to zero (an ABSOLUTE change of the
+        # root); a planted root with a nonzero component of that size makes the first-order residual bound meaningless
+        from fractions import Fraction as _Fr
+        chop = _Fr(1, 1 << max(p - 3, 1))
+        tiny_planted = any(0 < abs(_Fr(t)) < chop for r_ in c.get("roots", []) for t in r_[:2])
         for z, (zr, zi) in zip(out, Z):
+            if tiny_planted and c.get("cleanup") is not False:
+                break
             v = P.eval(z)
             rho = _abs_fr(zr, zi)
             bound = 8 * max(err, eps1) * P.D1(rho) + (deg + 4) * eps1 * P.S(rho)
